@@ -405,11 +405,18 @@ def rule_safe_field(ctx, roles):
                         ok = allowed.index(t)
                         want = "Allowed(states)"
                     else:
+                        # an output position is born in exactly two places: the parent link of a record and the output_pos of a
+                        # (valid) state — the same provenance SAFE-IDX-O accepts for the index of a scan report
+                        def of_state(m_):
+                            if not (m_[0] == "call" and m_[1] == v.S + "::output_pos" and len(m_[2]) == 1):
+                                return False
+                            a_ = m_[2][0]
+                            return a_[0] == "call" and a_[1] == GET_UNCHECKED and table_of(a_[2][0], v) == "states" and allowed.index(a_[2][1])
                         ok = all(
                             (m[0] == "agg" and m[1] == OPTION and m[2] == "None") or
-                            (m[0] == "call" and m[1] == v.O + "::parent")
+                            (m[0] == "call" and m[1] == v.O + "::parent") or of_state(m)
                             for m in members(t))
-                        want = "None or Output::parent(record)"
+                        want = "None, Output::parent(record) or State::output_pos of a valid state"
                     ctx.check(ok, "SAFE-FIELD", b, "write:%s.%s" % (I.split("::")[-1], fname), loc,
                               "write to %s.%s must be %s; found %s" % (I, fname, want, show(t)), show(t))
 
@@ -972,11 +979,32 @@ def _iter_standard_one(ctx, roles, v, kind, info, rules):
             x = x[2][0]
         return x[3] == osite
     osw = switches_on(root, _on_output)
+    bool_form = False
+    if len(osw) != 1:
+        # `let found = ..output_pos(); if found.is_some() {..}` / `!found.is_none()`
+        def _on_output_bool(d):
+            x = d
+            while x[0] == "un" and x[1] == "Not":
+                x = x[2]
+            return x[0] == "call" and isinstance(x[1], str) and core.callee_base(x[1]) in ("core::option::Option::is_some", "core::option::Option::is_none") \
+                and len(x[2]) == 1 and x[2][0][0] == "call" and x[2][0][3] == osite
+        osw = switches_on(root, _on_output_bool)
+        bool_form = len(osw) == 1
     if len(osw) != 1:
         ctx.bad("ITER-OUT", b, "output-switch:" + tag, b.loc(obi), "output_pos must be matched exactly once")
         return
     osbi, ost, od = osw[0]
-    if od[1][3] == osite:
+    if bool_form:
+        neg = False
+        x = od
+        while x[0] == "un" and x[1] == "Not":
+            neg = not neg
+            x = x[2]
+        if core.callee_base(x[1]).endswith("is_none"):
+            neg = not neg
+        tt_, ff_ = bool_arms(ost)
+        osome, onone = (ff_, tt_) if neg else (tt_, ff_)
+    elif od[1][3] == osite:
         osome, onone = opt_arms(ost)
     else:
         cont_ = [tb for val, tb in ost["targets"] if val == 0]
@@ -994,14 +1022,31 @@ def _iter_standard_one(ctx, roles, v, kind, info, rules):
             scan_reports.append((bi, si, agg))
         else:
             chain_reports.append((bi, si, agg))
+    # hand-off form (overlapping iterator written as one loop): the scan path does not report itself but stores the new state's
+    # output in self.output_pos — guarded by it being Some — and goes back to the entry test, whose chain branch reports it before
+    # anything else is pulled
+    handoff = []
+    if kind == "overlapping" and not scan_reports:
+        esw_ = switches_on(root, lambda d: d[0] == "discr" and d[1][0] == "field" and d[1][3] == "output_pos" and self_param(d[1][1]))
+        for bi_, si_, s_ in b.stmts():
+            if s_["k"] == "assign" and core.last_field(s_["lhs"]) and core.last_field(s_["lhs"])["name"] == "output_pos" and \
+                    core.last_field(s_["lhs"])["adt"] == I:
+                t_ = pnorm(root.T.rvalue(s_["rv"]))
+                direct_ = t_[0] == "call" and t_[3] == osite
+                wrapped_ = t_[0] == "agg" and t_[2] == "Some" and dict(t_[3]).get("0", ("x",))[0] == "payload" and \
+                    dict(t_[3])["0"][1][0] == "call" and dict(t_[3])["0"][1][3] == osite
+                if (direct_ or wrapped_) and b.edge_guards((osbi, osome), bi_) and len(esw_) == 1 and \
+                        pbi not in b.reach(bi_, avoid_blocks=[esw_[0][0]]) - {bi_}:
+                    handoff.append(bi_)
     if want("ITER-OUT"):
-        ctx.check(len(scan_reports) >= 1, "ITER-OUT", b, "has-scan-report:" + tag, b.span, "no report on the scan path")
+        ctx.check(len(scan_reports) >= 1 or bool(handoff), "ITER-OUT", b, "has-scan-report:" + tag, b.span, "no report on the scan path")
         for bi, si, agg in scan_reports:
             ctx.check(b.edge_guards((osbi, osome), bi), "ITER-OUT", b, "report-guarded-by-output:" + tag, b.loc(bi, si),
                       "a report on the scan path must be guarded by `output_pos(state).is_some()`")
         # the None arm of the output test must continue scanning (reach the pull again), not return
         ctx.check(pbi in b.reachable_from(onone) and not any(
-            bi in b.reachable_from(onone, avoid=[pbi]) for bi, _, _ in scan_reports), "ITER-OUT", b,
+            bi in b.reachable_from(onone, avoid=[pbi]) for bi, _, _ in scan_reports) and not any(
+            hb in b.reachable_from(onone, avoid=[pbi]) for hb in handoff), "ITER-OUT", b,
             "no-output-continues:" + tag, b.loc(osbi), "a state without output must continue the scan")
     if kind != "overlapping":
         if want("ITER-ONE"):
